@@ -503,7 +503,70 @@ def extract_schemes(repo, parents):
     return L
 
 
-SECTIONS = [extract_models, extract_pool, extract_timeouts, extract_schemes]
+# ---------------------------------------------------------------------------------------------
+# C15: exception maps of the back ends, map_exceptions sites of the async package
+# ---------------------------------------------------------------------------------------------
+
+def _exc_ctor(name):
+    base = name.split(".")[-1]
+    return "." + base if base in EXC_NAMES else None
+
+
+def extract_exception_maps(repo, parents):
+    rows = []
+    for backend in ("sync", "anyio", "trio"):
+        tree = _parse(repo, f"httpcore/_backends/{backend}.py")
+        for cls, fn in _func_defs(tree):
+            for n in ast.walk(fn):
+                value = None
+                if isinstance(n, ast.AnnAssign) and getattr(n.target, "id", "") == "exc_map":
+                    value = n.value
+                elif isinstance(n, ast.Assign) and getattr(n.targets[0], "id", "") == "exc_map":
+                    value = n.value
+                if value is None:
+                    continue
+                if not isinstance(value, ast.Dict):
+                    raise ExtractError(f"{backend}.{cls}.{fn.name}: exc_map is not a dict literal")
+                pairs = []
+                for k, v in zip(value.keys, value.values):
+                    tgt = _exc_ctor(ast.unparse(v))
+                    if tgt is None:
+                        raise ExtractError(f"{backend}.{cls}.{fn.name}: exc_map maps to a class that is not an httpcore exception: {ast.unparse(v)}")
+                    pairs.append((ast.unparse(k), tgt))
+                rows.append((backend, cls, fn.name, pairs))
+    if len(rows) < 9:
+        raise ExtractError("fewer back-end exception maps than expected")
+    L = ["/-- `exc_map` literals of the three back ends: (back end, class, method, [(source class, httpcore class)]) -/",
+         "def backendExcMaps : List (String × String × String × List (String × Exc)) := ["]
+    L.append(",\n".join("  (%s, %s, %s, %s)" % (lean_str(b), lean_str(c), lean_str(m), lean_list("(%s, %s)" % (lean_str(k), t) for k, t in pairs))
+                         for b, c, m, pairs in sorted(rows)) + "]")
+    sites = []
+    for mod in ("connection", "http11", "http2", "http_proxy", "socks_proxy", "connection_pool"):
+        tree = _parse(repo, f"httpcore/_async/{mod}.py")
+        for cls, fn in _func_defs(tree):
+            for n in ast.walk(fn):
+                if isinstance(n, ast.Call) and ast.unparse(n.func) == "map_exceptions" and n.args and isinstance(n.args[0], ast.Dict):
+                    for k, v in zip(n.args[0].keys, n.args[0].values):
+                        tgt = _exc_ctor(ast.unparse(v))
+                        if tgt is None:
+                            raise ExtractError(f"{mod}.{fn.name}: map_exceptions target is not an httpcore exception")
+                        sites.append((mod, (cls + "." if cls else "") + fn.name, ast.unparse(k), tgt))
+    tree = _parse(repo, "httpcore/_synchronization.py")
+    for cls, fn in _func_defs(tree):
+        for n in ast.walk(fn):
+            if isinstance(n, (ast.AnnAssign, ast.Assign)) and isinstance(getattr(n, "value", None), ast.Dict) and "exc_map" in ast.unparse(n.targets[0] if isinstance(n, ast.Assign) else n.target):
+                for k, v in zip(n.value.keys, n.value.values):
+                    tgt = _exc_ctor(ast.unparse(v))
+                    if tgt is not None:
+                        sites.append(("_synchronization", (cls + "." if cls else "") + fn.name, ast.unparse(k), tgt))
+    sites = sorted(set(sites))
+    L.append("/-- every `map_exceptions({...})` literal of the async package: (module, function, library class, httpcore class) -/")
+    L.append("def mapSites : List (String × String × String × Exc) := [")
+    L.append(",\n".join("  (%s, %s, %s, %s)" % (lean_str(a), lean_str(b), lean_str(c), d) for a, b, c, d in sites) + "]")
+    return L
+
+
+SECTIONS = [extract_models, extract_pool, extract_timeouts, extract_schemes, extract_exception_maps]
 
 
 def generate(repo):
